@@ -272,7 +272,55 @@ func runC17(c *Ctx) {
 			return true
 		})
 		c.Ob("DUPLICATE-OUTPUT", "ValidatePluginResponses/seen-is-error", vp.Decl.Pos(), okErr, true, "a key already seen returns a non-nil error: %v", okErr)
-		c.Ob("DUPLICATE-OUTPUT", "ValidatePluginResponses/key", vp.Decl.Pos(), okKey, true, "the key is Join(PluginOut, file name), so equal names in different out directories do not collide: %v", okKey)
+		// decided on the values: both the lookup and the insertion use, as the key itself, the result of a Join of the
+		// plugin's out directory and the file name (two spellings of one output file - "a/../x.go" under out "gen",
+		// "x.go" under "gen" - are then one key; a (out, name) pair or an unjoined name is not)
+		if vsf := p.SSAFunc(vp.Obj); vsf != nil {
+			isJoined := func(k ssa.Value) bool {
+				call, ok := stripConv(k).(*ssa.Call)
+				if !ok {
+					return false
+				}
+				fn := staticCalleeObj(&call.Call)
+				if fn == nil || fn.Name() != "Join" {
+					return false
+				}
+				out, name := false, false
+				for _, a := range call.Call.Args {
+					sliceBack(a, func(x ssa.Value) bool {
+						if fa, ok := x.(*ssa.FieldAddr); ok {
+							if st, ok := fa.X.Type().Underlying().(*types.Pointer).Elem().Underlying().(*types.Struct); ok && st.Field(fa.Field).Name() == "PluginOut" {
+								out = true
+							}
+						}
+						if cc, ok := x.(*ssa.Call); ok {
+							if f := staticCalleeObj(&cc.Call); f != nil && f.Name() == "GetName" {
+								name = true
+							}
+						}
+						return true
+					})
+				}
+				return out && name
+			}
+			lookups, updates, okAll := 0, 0, true
+			for _, b := range vsf.Blocks {
+				for _, ins := range b.Instrs {
+					switch x := ins.(type) {
+					case *ssa.Lookup:
+						if _, isMap := x.X.Type().Underlying().(*types.Map); isMap {
+							lookups++
+							okAll = okAll && isJoined(x.Index)
+						}
+					case *ssa.MapUpdate:
+						updates++
+						okAll = okAll && isJoined(x.Key)
+					}
+				}
+			}
+			okKey = okKey && okAll && lookups >= 1 && updates >= 1
+		}
+		c.Ob("DUPLICATE-OUTPUT", "ValidatePluginResponses/key", vp.Decl.Pos(), okKey, true, "the key looked up and inserted is Join(PluginOut, file name), so equal names in different out directories do not collide and two spellings of one path do: %v", okKey)
 	} else {
 		c.Fail("DUPLICATE-OUTPUT", "ValidatePluginResponses", token.NoPos, "not found")
 	}
